@@ -64,7 +64,11 @@ struct Stats {
     uint64_t closure_cells = 0; // cells checked by the closure clause
     std::string frag;
 };
-inline thread_local Stats ST;
+// The main thread's statistics live in an ordinary static object: exit() destroys thread_local objects of the main thread BEFORE it
+// runs atexit handlers, and the fragment is written from one. Other threads (C18 workers) point t_stats at a Stats of their own.
+inline Stats g_main_stats;
+inline thread_local Stats *t_stats = nullptr;
+inline Stats &stats() { return t_stats ? *t_stats : g_main_stats; }
 
 // known findings (known_findings.json, status=known): excluded by construction, counted, so that the campaign continues
 inline std::vector<std::string> g_known;
@@ -95,43 +99,43 @@ template <class T> inline void OBS(const T &v) { obs_bytes(&v, sizeof(T)); }
 inline void (*g_violation_handler)(const std::string &) = nullptr;
 
 inline void dump_fragment() {
-    if (ST.frag.empty()) return;
-    std::string path = ST.frag + "." + std::to_string((long)getpid()) + ".json";
+    if (stats().frag.empty()) return;
+    std::string path = stats().frag + "." + std::to_string((long)getpid()) + ".json";
     FILE *f = fopen(path.c_str(), "w");
     if (!f) return;
     fprintf(f, "{\"execs\":%llu,\"calls\":%llu,\"skipped_size\":%llu,\"nontrivial_programs\":%llu,\"table_hits\":%llu,\"closure_cells\":%llu,\n",
-            (unsigned long long)ST.execs, (unsigned long long)ST.calls, (unsigned long long)ST.skipped_size,
-            (unsigned long long)ST.nontrivial_programs, (unsigned long long)ST.table_hits, (unsigned long long)ST.closure_cells);
+            (unsigned long long)stats().execs, (unsigned long long)stats().calls, (unsigned long long)stats().skipped_size,
+            (unsigned long long)stats().nontrivial_programs, (unsigned long long)stats().table_hits, (unsigned long long)stats().closure_cells);
     fprintf(f, "\"ns_by_op\":[");
-    for (int i = 0; i < 64; i++) fprintf(f, "%s%llu", i ? "," : "", (unsigned long long)ST.ns_by_op[i]);
+    for (int i = 0; i < 64; i++) fprintf(f, "%s%llu", i ? "," : "", (unsigned long long)stats().ns_by_op[i]);
     fprintf(f, "],\n");
     fprintf(f, "\"excluded_known\":{");
     for (size_t i = 0; i < g_known.size(); i++) fprintf(f, "%s\"%s\":%llu", i ? "," : "", g_known[i].c_str(), (unsigned long long)g_known_hits[i]);
     fprintf(f, "},\n\"fn_rc\":{");
     bool first = true;
     for (int i = 0; i < NFN; i++) {
-        if (!ST.fn_name[i]) continue;
-        fprintf(f, "%s\"%s\":[", first ? "" : ",", ST.fn_name[i]);
-        for (int r = 0; r < 17; r++) fprintf(f, "%s%llu", r ? "," : "", (unsigned long long)ST.by_fn_rc[i][r]);
+        if (!stats().fn_name[i]) continue;
+        fprintf(f, "%s\"%s\":[", first ? "" : ",", stats().fn_name[i]);
+        for (int r = 0; r < 17; r++) fprintf(f, "%s%llu", r ? "," : "", (unsigned long long)stats().by_fn_rc[i][r]);
         fprintf(f, "]");
         first = false;
     }
     fprintf(f, "},\n\"behaviours\":[");
     first = true;
-    for (uint64_t b : ST.behaviours) {
+    for (uint64_t b : stats().behaviours) {
         fprintf(f, "%s%llu", first ? "" : ",", (unsigned long long)b);
         first = false;
     }
     fprintf(f, "],\n\"traces\":[");
     first = true;
-    for (uint64_t b : ST.traces) {
+    for (uint64_t b : stats().traces) {
         fprintf(f, "%s%llu", first ? "" : ",", (unsigned long long)b);
         first = false;
     }
     fprintf(f, "],\n\"samples\":[");
-    for (size_t i = 0; i < ST.samples.size(); i++) {
+    for (size_t i = 0; i < stats().samples.size(); i++) {
         std::string e;
-        for (char c : ST.samples[i]) {
+        for (char c : stats().samples[i]) {
             if (c == '"' || c == '\\') e += '\\';
             if ((unsigned char)c >= 0x20) e += c;
         }
@@ -531,7 +535,7 @@ struct Call {
     Call C;                 \
     C.fn = id;              \
     C.name = nm;            \
-    ST.fn_name[id] = nm;
+    stats().fn_name[id] = nm;
 
 inline void add_cls(Call &C, int c) {
     C.cls = C.cls * 7 + (uint64_t)c + 1;
@@ -554,19 +558,19 @@ inline void arg_dbl(Call &C, double v) {
 
 // record the result; rc must be a documented code
 inline void done(Call &C, int rc) {
-    ST.calls++;
+    stats().calls++;
     OBS(rc);
     if (rc < 0 || rc > 15) violation(sfmt("%s(%s) returned %d, which is not one of the documented codes 0..15", C.name, C.d().c_str(), rc));
-    ST.by_fn_rc[C.fn][rc]++;
+    stats().by_fn_rc[C.fn][rc]++;
     uint64_t key = ((uint64_t)C.fn << 48) ^ ((uint64_t)rc << 40) ^ C.cls;
-    ST.behaviours.insert(key);
+    stats().behaviours.insert(key);
     g_prog_hash = (g_prog_hash ^ key) * 1099511628211ULL;
     g_prog_nontrivial = true;
     if (g_trace) g_tracebuf += sfmt("%s(%s)->%d; ", C.name, C.d().c_str(), rc);
 }
 // the documented code for an out-of-domain scalar: any code in `allowed` (bit mask) — never success
 inline void expect_code(Call &C, int rc, uint32_t allowedMask, const char *why) {
-    ST.table_hits++;
+    stats().table_hits++;
     if (rc == 0 || !((allowedMask >> rc) & 1))
         violation(sfmt("%s(%s) returned %d for an out-of-domain argument (%s); documented code mask 0x%x", C.name, C.d().c_str(), rc, why, allowedMask));
 }
@@ -574,7 +578,7 @@ inline void closure(Call &C, int rc, const uint64_t *cells, size_t n, bool allow
     if (rc != 0 || !C.all_cells_valid) return;
     for (size_t i = 0; i < n; i++) {
         if (cells[i] == 0 && allowNull) continue;
-        ST.closure_cells++;
+        stats().closure_cells++;
         if (!ref::valid_cell(cells[i]))
             violation(sfmt("%s(%s) succeeded on valid arguments but output %zu = %016llx is not a valid cell", C.name, C.d().c_str(), i, (unsigned long long)cells[i]));
     }
@@ -651,7 +655,7 @@ inline void op(VM &vm) {
             int64_t sz = 0;
             int src = maxGridDiskSize(k, &sz);
             if (src != 0) sz = 0;  // no documented size exists: a zero-length buffer, the call must fail without writing
-            if (sz > (w == 4 ? CAP_SAFE : CAP_DISK)) { ST.skipped_size++; break; }
+            if (sz > (w == 4 ? CAP_SAFE : CAP_DISK)) { stats().skipped_size++; break; }
             Buf<H3Index> out((size_t)sz);
             Buf<int> dist((size_t)sz);
             int rc;
@@ -677,7 +681,7 @@ inline void op(VM &vm) {
             arg_int(C, k, k >= 0);
             int64_t sz = 0;
             if (maxGridDiskSize(k, &sz) != 0) sz = 0;
-            if (sz * (int64_t)set.size() > CAP_DISK) { ST.skipped_size++; break; }
+            if (sz * (int64_t)set.size() > CAP_DISK) { stats().skipped_size++; break; }
             Buf<H3Index> in(set.size());
             if (!set.empty()) memcpy(in.p, set.data(), set.size() * 8);
             Buf<H3Index> out((size_t)sz * set.size());
@@ -693,7 +697,7 @@ inline void op(VM &vm) {
             if (k < 0) break;  // no documented buffer size for k < 0: outside the premise (DESIGN C12)
             arg_cell(C, h); arg_int(C, k, true);
             int64_t sz = k == 0 ? 1 : 6 * (int64_t)k;
-            if (sz > CAP_DISK) { ST.skipped_size++; break; }
+            if (sz > CAP_DISK) { stats().skipped_size++; break; }
             Buf<H3Index> out((size_t)sz);
             int rc = gridRingUnsafe(h, k, out.p);
             done(C, rc);
@@ -722,7 +726,7 @@ inline void op(VM &vm) {
                 break;
             }
             if (rc != 0) sz = 0;
-            if (sz > CAP_POLY) { ST.skipped_size++; break; }
+            if (sz > CAP_POLY) { stats().skipped_size++; break; }
             Buf<H3Index> out((size_t)sz);
             rc = polygonToCells(&P.gp, res, flags, out.p);
             done(C, rc);
@@ -755,7 +759,7 @@ inline void op(VM &vm) {
                 break;
             }
             if (rc != 0) sz = 0;
-            if (sz > CAP_POLY) { ST.skipped_size++; break; }
+            if (sz > CAP_POLY) { stats().skipped_size++; break; }
             uint8_t shortBy = vm.rd.u8();
             int64_t cap = sz;
             if ((shortBy & 7) == 7 && sz > 0) cap = sz - 1 - (shortBy >> 3) % sz;  // a smaller capacity: must never overrun
@@ -967,7 +971,7 @@ inline void op(VM &vm) {
             arg_cell(C, h); arg_int(C, cr, cr >= ref::res_of(h) && cr <= 15);
             int64_t n = 0;
             if (cellToChildrenSize(h, cr, &n) != 0) break;  // no documented size: the call is outside the premise
-            if (n > CAP_CHILDREN) { ST.skipped_size++; break; }
+            if (n > CAP_CHILDREN) { stats().skipped_size++; break; }
             Buf<H3Index> out((size_t)n);
             int rc = cellToChildren(h, cr, out.p);
             done(C, rc);
@@ -1055,11 +1059,11 @@ inline void op(VM &vm) {
             int64_t n = -1;
             int rc = uncompactCellsSize(in.p, (int64_t)set.size(), res, &n);
             if (rc == 0) OBS(n);
-            { Call C2 = C; C2.fn = 42; C2.name = "uncompactCellsSize"; ST.fn_name[42] = C2.name; done(C2, rc);
+            { Call C2 = C; C2.fn = 42; C2.name = "uncompactCellsSize"; stats().fn_name[42] = C2.name; done(C2, rc);
               if (coarser || ((res < 0 || res > 15) && anyNonNull))
                   expect_code(C2, rc, M(E_RES_MISMATCH) | M(E_RES_DOMAIN), "target resolution coarser than an input cell / outside 0..15"); }
             if (rc != 0) break;
-            if (n > CAP_UNCOMPACT) { ST.skipped_size++; break; }
+            if (n > CAP_UNCOMPACT) { stats().skipped_size++; break; }
             uint8_t shortBy = vm.rd.u8();
             int64_t cap = n;
             if ((shortBy & 3) == 3 && n > 0) cap = n - 1 - (shortBy >> 2) % n;
@@ -1080,7 +1084,7 @@ inline void op(VM &vm) {
             int mf = -1;
             int rc = maxFaceCount(h, &mf);
             OBS(rc); if (rc == 0) OBS(mf);
-            if (rc != 0 || mf < 0 || mf > 5) { Call C2 = C; C2.fn = 44; C2.name = "maxFaceCount"; ST.fn_name[44] = C2.name; done(C2, rc); if (rc == 0) violation(sfmt("maxFaceCount(%s) = %d", C.d().c_str(), mf)); break; }
+            if (rc != 0 || mf < 0 || mf > 5) { Call C2 = C; C2.fn = 44; C2.name = "maxFaceCount"; stats().fn_name[44] = C2.name; done(C2, rc); if (rc == 0) violation(sfmt("maxFaceCount(%s) = %d", C.d().c_str(), mf)); break; }
             Buf<int> out((size_t)mf, 0x7f);
             rc = getIcosahedronFaces(h, out.p);
             done(C, rc);
@@ -1204,10 +1208,10 @@ inline void op(VM &vm) {
             int64_t n = -1;
             int rc = gridPathCellsSize(a, b, &n);
             if (rc == 0) OBS(n);
-            { Call C2 = C; C2.fn = 57; C2.name = "gridPathCellsSize"; ST.fn_name[57] = C2.name; done(C2, rc); }
+            { Call C2 = C; C2.fn = 57; C2.name = "gridPathCellsSize"; stats().fn_name[57] = C2.name; done(C2, rc); }
             if (rc != 0) break;
             if (n < 1) violation(sfmt("gridPathCellsSize(%s) = %lld", C.d().c_str(), (long long)n));
-            if (n > CAP_PATH) { ST.skipped_size++; break; }
+            if (n > CAP_PATH) { stats().skipped_size++; break; }
             Buf<H3Index> out((size_t)n);
             rc = gridPathCells(a, b, out.p);
             done(C, rc);
@@ -1265,8 +1269,8 @@ inline uint64_t run_program(const uint8_t *data, size_t size) {
     g_obs = 1469598103934665603ULL;
     // the library has no global state to reset (that is property C18); the VM state is local
     VM vm(data, size);
-    ST.execs++;
-    bool sample = ST.samples.size() < 24 && (ST.execs % 997 == 1 || ST.execs < 4);
+    stats().execs++;
+    bool sample = stats().samples.size() < 24 && (stats().execs % 997 == 1 || stats().execs < 4);
     bool saved = g_trace;
     if (sample) g_trace = true;
     g_tracebuf.clear();
@@ -1281,14 +1285,14 @@ inline uint64_t run_program(const uint8_t *data, size_t size) {
         clock_gettime(CLOCK_MONOTONIC, &t0);
         op(vm);
         clock_gettime(CLOCK_MONOTONIC, &t1);
-        ST.ns_by_op[opc] += (uint64_t)((t1.tv_sec - t0.tv_sec) * 1000000000LL + (t1.tv_nsec - t0.tv_nsec));
+        stats().ns_by_op[opc] += (uint64_t)((t1.tv_sec - t0.tv_sec) * 1000000000LL + (t1.tv_nsec - t0.tv_nsec));
         ncalls++;
     }
     if (g_prog_nontrivial) {
-        ST.nontrivial_programs++;
-        if (ST.traces.size() < 4000000) ST.traces.insert(g_prog_hash);
+        stats().nontrivial_programs++;
+        if (stats().traces.size() < 4000000) stats().traces.insert(g_prog_hash);
     }
-    if (sample && !g_tracebuf.empty()) ST.samples.push_back(g_tracebuf.substr(0, 900));
+    if (sample && !g_tracebuf.empty()) stats().samples.push_back(g_tracebuf.substr(0, 900));
     if (g_trace && !sample) fprintf(stderr, "TRACE %s\n", g_tracebuf.c_str());
     g_trace = saved;
     return g_obs;
@@ -1296,7 +1300,7 @@ inline uint64_t run_program(const uint8_t *data, size_t size) {
 
 inline void init_from_env() {
     if (const char *t = getenv("VERIF_TRACE")) { g_trace = atoi(t) != 0; g_trace_level = atoi(t); }
-    if (const char *f = getenv("VERIF_FRAG")) ST.frag = f;
+    if (const char *f = getenv("VERIF_FRAG")) stats().frag = f;
     if (const char *k = getenv("VERIF_KNOWN")) {
         std::string v = k;
         size_t p = 0;
